@@ -311,6 +311,12 @@ def run(chk: common.Check):
     if corpus.exists():
         cases += [(e["tag"], e["body"], e["context"]) for e in json.load(open(corpus))]
     ctxs = list(CONTEXTS)
+    # every single lexeme as a body, for every tag in every context (exhaustive), then random longer bodies
+    for tag in TAGS:
+        for lex in MARKUP:
+            if not closes_itself(tag, lex):
+                cases += [(tag, lex, c) for c in ctxs]
+    ne += len(cases)
     while len(cases) < ne:
         tag = rng.choice(TAGS)
         body = gen_body(rng)
